@@ -2,7 +2,7 @@
    Property theorems only; every proof is `exact <lemma>`.  The model (model/Arith.v)
    takes every table and threshold from gen/GenArith.v, regenerated from /repo. *)
 From Coq Require Import NArith List.
-From V Require Import lib.Words gen.GenArith spec.RfcTables model.Arith proofs.Arith_proofs proofs.Dist_proofs proofs.Cmd_proofs.
+From V Require Import lib.Words gen.GenArith spec.RfcTables model.Arith proofs.Arith_proofs proofs.Dist_proofs proofs.Cmd_proofs proofs.Recompute_proofs.
 Open Scope N_scope.
 
 (* Every insert length the format can carry (0 .. 22594+2^24-1): the code computed by the
@@ -83,6 +83,23 @@ Theorem C18_store_extra : forall c : command,
 Proof. exact store_command_extra_correct. Qed.
 Print Assumptions C18_store_extra.
 
+(* RecomputeDistancePrefixes (quality 10/11: the meta-block builder changes npostfix / ndirect after the commands
+   were built): for every command built from a distance code below 2^31 under any valid parameter pair, and any
+   valid new pair, the re-encoded (symbol, extra) is exactly the encoding of the same distance code under the new
+   parameters (hence denotes the same distance, by C18_dist / C18_dist_short) and is restored to it; insert
+   length, copy length word and command symbol are untouched.  Commands without an explicit distance
+   (cmd_prefix < 128: distance code 0, symbol 0 under every parameter pair) are left alone. *)
+Theorem C18_recompute : forall nd0 np0 nd1 np1 ins copylen code dc,
+  np0 <= 3 -> nd0 <= 120 -> np1 <= 3 -> nd1 <= 120 -> dc < 2 ^ 31 ->
+  let c := command_new nd0 np0 ins copylen code dc in
+  let c' := recompute_distance_prefix nd0 np0 nd1 np1 c in
+  insert_len_ c' = insert_len_ c /\ copy_len_ c' = copy_len_ c /\ cmd_prefix_ c' = cmd_prefix_ c /\
+  ((np0 = np1 /\ nd0 = nd1) \/ (cmd_copy_len c <> 0 /\ 128 <= cmd_prefix_ c) ->
+     restore_distance_code (dist_prefix_ c') (dist_extra_ c') nd1 np1 = dc /\
+     (dist_prefix_ c', dist_extra_ c') = prefix_encode_copy_distance dc nd1 np1).
+Proof. exact recompute_correct. Qed.
+Print Assumptions C18_recompute.
+
 (* Non-vacuity: concrete non-trivial points inside every domain. *)
 Example C18_points :
   get_insert_length_code 2113 = 20 /\ get_copy_length_code 2117 = 22 /\
@@ -90,4 +107,11 @@ Example C18_points :
   get_block_length_prefix_code 16624 = (24, 13, 8191) /\
   prefix_encode_copy_distance 70000 12 1 = (14416, 2222) /\
   restore_distance_code 14416 2222 12 1 = 70000.
+Proof. vm_compute. repeat split; reflexivity. Qed.
+(* FONT mode's (ndirect 12, npostfix 1) changed to (0, 0): the direct code 20 (distance 5) needs a re-encoding *)
+Example C18_recompute_point :
+  let c := command_new 12 1 3 5 5 20 in
+  (128 <=? cmd_prefix_ c) = true /\ (dist_prefix_ c, dist_extra_ c) = (20, 0) /\
+  (dist_prefix_ (recompute_distance_prefix 12 1 0 0 c), dist_extra_ (recompute_distance_prefix 12 1 0 0 c)) = (2066, 0) /\
+  rfc_distance 0 0 18 0 = 5.
 Proof. vm_compute. repeat split; reflexivity. Qed.
